@@ -146,6 +146,18 @@ var progSpecs = []progSpec{
 	{"component_definition", "", "NewHolder", "holder_NewHolder", ""},
 	{"component_definition", "", "NewEmbedHolder", "holder_NewEmbedHolder", ""},
 	{"component_definition", "Meta", "GetAllProperties", "meta_GetAllProperties", ""},
+	{"container/factory", "", "Default", "fac_Default", ""},
+	{"container/factory", "defaultFactory", "registerBeanPostProcessors", "fac_registerBeanPostProcessors", ""},
+	{"container/factory", "defaultFactory", "GetRegisteredComponents", "fac_GetRegisteredComponents", ""},
+	{"container/factory", "defaultFactory", "GetDefinitionRegistryPostProcessors", "fac_GetDefinitionRegistryPostProcessors", ""},
+	{"container/factory", "defaultFactory", "SetRegistry", "fac_SetRegistry", ""},
+	{"container/factory", "defaultFactory", "SetConfigure", "fac_SetConfigure", ""},
+	{"container/factory", "defaultFactory", "GetConfigure", "fac_GetConfigure", ""},
+	{"container/factory", "defaultFactory", "GetDefinitionRegistry", "fac_GetDefinitionRegistry", ""},
+	{"component_definition", "Field", "ID", "field_ID", ""},
+	{"component_definition", "Holder", "ID", "holder_ID", ""},
+	{"component_definition", "Property", "ID", "prop_ID", ""},
+	{"component_definition", "Property", "info", "prop_info", ""},
 	{"util/reflectx", "", "Id", "reflectx_Id", ""},
 	{"util/reflectx", "", "TypeId", "reflectx_TypeId", ""},
 	{"configure/loader", "FileLoader", "Order", "loader_File_Order", ""},
